@@ -225,6 +225,15 @@ func evalOne(c *wctx, p *prog, iset int, refHint *outcome) evalResult {
 		atomic.AddInt64(&nRefOOG, 1)
 	}
 	switch {
+	case k1.tr.uovf != ref.tr.uovf && !k1.tr.plainOOG && !ref.tr.plainOOG:
+		// the uint64-overflow error does not depend on the gas schedule: a program in which exactly one side reports it
+		// (and neither ran out of gas proper) is a difference, not an out-of-gas run to be skipped
+		side := "the reference"
+		if k1.tr.uovf {
+			side = "KVM"
+		}
+		add("differential", fmt.Sprintf("only %s fails a frame with the gas / memory-size uint64 overflow error (KVM: %s, reference: %s)", side, statusName[k1.status], statusName[ref.status]))
+		return res
 	case k1.tr.oog || ref.tr.oog:
 		atomic.AddInt64(&nSkipOOG, 1)
 		return res
